@@ -48,11 +48,20 @@ class Rule(whitespace.Rule):
                 self.analyze_no_whitespace_token(oToi)
 
     def analyze_no_whitespace_token(self, oToi):
-        if not self.number_of_spaces_is_an_integer() and self.number_of_spaces_is_lte() and self.number_of_spaces_is_lt():
-            return
-        elif self.number_of_spaces != 0:
-            iSpaces = self.extract_expected_number_of_spaces()
+        iSpaces = self.extract_minimum_number_of_spaces()
+        if iSpaces > 0:
             self.create_violation(oToi, iSpaces)
+
+    def extract_minimum_number_of_spaces(self):
+        if self.number_of_spaces_is_an_integer():
+            return self.number_of_spaces
+        elif self.number_of_spaces_is_gte():
+            return int(self.number_of_spaces[2:])
+        elif self.number_of_spaces_is_gt():
+            return int(self.number_of_spaces[1:]) + 1
+        elif self.number_of_spaces_is_plus():
+            return int(self.number_of_spaces[:-1])
+        return 0
 
     def extract_expected_number_of_spaces(self):
         if self.number_of_spaces_is_an_integer():
